@@ -15,7 +15,7 @@ RULE = ("Small generated cases for every subcommand that writes a VCF, BAM or TS
         "equal-weight reads, read-free pedigree variants, reads or read clouds spanning several phase sets with equal scores, "
         "polyploid clusters of identical reads): phase (single samples, trios and quartets with --ped, with and without --use-ped-samples and an unrelated "
         "extra individual in the same files, all list outputs), genotype (with and without --ped), polyphase (--threads 1/2/4, one or two samples, --use-prephasing with one pre-phased and one unphased sample), haplotag (--output-threads 1/4, BX "
-        "clouds), haplotagphase, stats, compare, split and unphase. Each case is executed 3-4 times as a real subprocess "
+        "clouds, --regions over several contigs), haplotagphase, stats, compare, split and unphase. Each case is executed 3-4 times as a real subprocess "
         "with PYTHONHASHSEED in {0, 1, 2, 12345} and different thread settings; all output files (without the ##commandline "
         "/ @PG CL lines) must be identical to those of the first execution. Non-trivial = the harness built a tie into the "
         "case (noisy reads, read-free forced or ambiguous pedigree sites, multi-set clouds) or varied the thread count. "
@@ -266,7 +266,19 @@ class HaplotagPart(Base):
             if draw(st.integers(0, 1)) == 0:
                 sp["bx"] = "BX_%d_%s" % (draw(st.integers(0, 1)), sp["sample"])
         c["opts"]["ignore_linked_read"] = False
+        # --regions naming the contigs in an order of their own (whole contigs and intervals)
+        names = [x["name"] for x in c["contigs"]]
         c["opts"]["regions"] = None
+        if draw(st.booleans()):
+            regs = []
+            for name in draw(st.permutations(names)):
+                L = len(next(x for x in c["contigs"] if x["name"] == name)["seq"])
+                if draw(st.booleans()):
+                    regs.append(name)
+                else:
+                    a = draw(st.integers(1, L // 2))
+                    regs.append("%s:%d-%d" % (name, a, min(L, a + draw(st.integers(50, 400)))))
+            c["opts"]["regions"] = regs
         return c
 
     def variants_of_run(self, case, k):
@@ -282,6 +294,8 @@ class HaplotagPart(Base):
         args = ["haplotag", "-o", "{out}/tagged.bam", "--reference", ref, "--output-haplotag-list", "{out}/list.tsv", vcf, bam]
         if case["opts"]["tag_supplementary"]:
             args.insert(1, "--tag-supplementary")
+        for reg in case["opts"].get("regions") or []:
+            args[1:1] = ["--regions", reg]
         return args, ["tagged.bam", "list.tsv"]
 
 
